@@ -676,3 +676,24 @@ func isNilConst(v ssa.Value) bool {
 	k, ok := v.(*ssa.Const)
 	return ok && k.IsNil()
 }
+
+// paramOfType: the index (receiver = 0) of fn's only parameter whose type prints as one of the given strings; def when
+// there is none or more than one. Rules name the parameters of unexported helpers by type, not by position.
+func paramOfType(fn *ssa.Function, def int, types ...string) int {
+	found := -1
+	for i, p := range fn.Params {
+		t := tstr(p.Type(), nil)
+		for _, want := range types {
+			if t == want {
+				if found >= 0 {
+					return def
+				}
+				found = i
+			}
+		}
+	}
+	if found < 0 {
+		return def
+	}
+	return found
+}
